@@ -527,6 +527,15 @@ func c06Negatives() []c06Case {
 		memFile{Name: "inc/compose.yaml", Content: svc("db", "two") + "configs:\n  c: {environment: CVAR}\n"}, memFile{Name: "inc/.env", Content: "CVAR=cfg-value\n"})
 	mk("included-secret-from-environment", true, memFile{Name: "compose.yaml", Content: "include: [inc/compose.yaml]\n" + svc("web", "one")},
 		memFile{Name: "inc/compose.yaml", Content: svc("db", "two") + "secrets:\n  s: {environment: SVAR}\n"}, memFile{Name: "inc/.env", Content: "SVAR=sec-value\n"})
+	// what sits at the well-known name `.env` in the included project's directory is not always a file
+	mk("dotenv-is-a-directory", true, memFile{Name: "compose.yaml", Content: "include: [inc/compose.yaml]\n" + svc("web", "one")},
+		memFile{Name: "inc/compose.yaml", Content: "services:\n  db:\n    image: img:${TAG:-latest}\n    environment: [TAG]\n"}, memFile{Name: "inc/.env", Dir: true}, memFile{Name: "inc/.env/stage.env", Content: "TAG=nope\n"})
+	mk("dotenv-is-a-directory-long-syntax", true, memFile{Name: "compose.yaml", Content: "include:\n  - path: inc/compose.yaml\n    project_directory: pd\n" + svc("web", "one")},
+		memFile{Name: "inc/compose.yaml", Content: "services:\n  db:\n    image: img:${TAG:-latest}\n"}, memFile{Name: "pd/.env", Dir: true})
+	mk("dotenv-is-a-dangling-link", true, memFile{Name: "compose.yaml", Content: "include: [inc/compose.yaml]\n" + svc("web", "one")},
+		memFile{Name: "inc/compose.yaml", Content: "services:\n  db:\n    image: img:${TAG:-latest}\n"}, memFile{Name: "inc/.env", Link: "nowhere/gone"})
+	mk("dotenv-is-empty", true, memFile{Name: "compose.yaml", Content: "include: [inc/compose.yaml]\n" + svc("web", "one")},
+		memFile{Name: "inc/compose.yaml", Content: "services:\n  db:\n    image: img:${TAG:-latest}\n"}, memFile{Name: "inc/.env", Content: ""})
 	mk("cycle-1", false, memFile{Name: "compose.yaml", Content: "include: [compose.yaml]\n" + svc("web", "one")})
 	mk("cycle-2", false, memFile{Name: "compose.yaml", Content: "include: [inc/compose.yaml]\n" + svc("web", "one")}, memFile{Name: "inc/compose.yaml", Content: "include: [../compose.yaml]\n" + svc("db", "two")})
 	mk("cycle-3", false, memFile{Name: "compose.yaml", Content: "include: [a/compose.yaml]\n" + svc("web", "one")}, memFile{Name: "a/compose.yaml", Content: "include: [../b/compose.yaml]\n" + svc("a", "x")},
